@@ -183,7 +183,7 @@ def run_one(tape, tier, prop):
     # flags through save/restore: quit in a flagged process, --load without flags
     hist = None
     if not problems:
-        name = t.choice(["S", "L", "SL", "S"])
+        name = t.choice(["S", "L", "SL", "S", "D", "D"])
         fl = F[name]
         U = runs[name].emitted
         if len(U) >= 2:
@@ -194,10 +194,17 @@ def run_one(tape, tier, prop):
             pA = oracle.cycle(rA, wr)
             if pA is None and rA.ctx.fired:
                 res.faults["quit_then_restart_flags_only_in_save_file"] += 1
-                rB = run_img(fl, load=True, with_flags=False)
+                # the --load process gets no flags, or flags that contradict the saved ones: either way the
+                # flags are taken from the save file
+                other = t.choice(["none", "none", "D", "S", "L", "SL"])
+                if other == "none":
+                    rB = run_img(fl, load=True, with_flags=False)
+                else:
+                    rB = run_img(F[other], load=True, with_flags=True)
                 pB = oracle.cycle(rB, wr)
                 if pB is not None:
-                    problems.append(("flags_not_restored_from_save:" + pB[0], dict(pB[1], image=name, cut=k)))
+                    problems.append(("flags_not_restored_from_save:" + pB[0], dict(pB[1], image=name, cut=k,
+                                                                                  load_command_line_flags=other)))
             elif pA is not None:
                 problems.append(("flagged_run_inconsistent:" + pA[0], dict(pA[1], image=name, cut=k)))
             hist = (name, k)
